@@ -96,6 +96,13 @@ RedProgs ==
                   [k |-> "op", h |-> 2, f |-> "var", a |-> <<Opnd(1)>>, kw |-> kw] >> :
                  kw \in {<<>>, [axis |-> <<0>>], [axis |-> <<-1>>, keepdims |-> TRUE], [ddof |-> 1], [axis |-> <<0>>, ddof |-> 1]}}
               : sh \in {<<3>>, <<2, 3>>}}
+  \* operands that are not C-contiguous: a transposed view, a Fortran-ordered leaf
+  \cup UNION {{<< Leaf(1, <<2, 3>>, IF f \in {"max", "min"} THEN "D" ELSE "B", FALSE), [k |-> "op", h |-> 2, f |-> "T", a |-> <<Opnd(1)>>],
+                  [k |-> "op", h |-> 3, f |-> f, a |-> <<Opnd(2)>>, kw |-> kw] >> : kw \in AxisOpts(<<3, 2>>)}
+              : f \in {"sum", "mean", "prod", "max", "min", "var"}}
+  \cup UNION {{<< [k |-> "leaf", h |-> 1, sh |-> <<2, 3>>, v |-> Vec(6, IF f \in {"max", "min"} THEN "D" ELSE "B"), const |-> FALSE, order |-> "F"],
+                  [k |-> "op", h |-> 2, f |-> f, a |-> <<Opnd(1)>>, kw |-> kw] >> : kw \in AxisOpts(<<2, 3>>)}
+              : f \in {"sum", "prod", "max", "min"}}
   \* prod with one zero and with several zeros per lane
   \cup {<< [k |-> "leaf", h |-> 1, sh |-> <<2, 3>>, v |-> vv, const |-> FALSE],
            [k |-> "op", h |-> 2, f |-> "prod", a |-> <<Opnd(1)>>, kw |-> kw] >> :
